@@ -94,7 +94,8 @@ structure LexOut where
 def snapshotOf (L : Lexer) : Snapshot :=
   { cp := L.cp.isSome, nesting := L.nesting, pending := L.pendingR.reverse,
     lastDefault := (Lexer.lastDefault? L.toksR).map (·.ty.toNat),
-    last := L.toksR.head?.map (·.ty.toNat), modes := L.modesR.reverse.map Mode.encode }
+    last := L.toksR.head?.map (·.ty.toNat), modes := L.modesR.reverse.map Mode.encode,
+    dec := some L.modesR.reverse }
 
 def budgetMul : Nat := 8
 
